@@ -208,7 +208,7 @@ func TestVerifC11Histories(t *testing.T) {
 func TestVerifC11Adversarial(t *testing.T) {
 	r := vkit.Start(t, "C11", "adversarial", 240*time.Second, 1200*time.Second)
 	defer r.Finish()
-	r.Rule = "honest non-revocation proofs (toy and 1024-bit) x every single-leaf alteration of the non-revocation part (C_r, C_u, each response, every 8th byte of the signed accumulator, key counter, responses deleted/added), every transplant (whole part / signed accumulator / single responses) from another credential of the same key, from the same credential at an older accumulator, from a credential under another key; the proof's own accumulator relabelled (later index / time) and signed with another key; every rejected object verified again; proofs from a revoked or foreign witness (guard bypassed by building the commitment from a doctored witness); non-trivial = distinct (key, alteration); oracle: rejected (16 verifications: never accepted)"
+	r.Rule = "honest non-revocation proofs (toy and 1024-bit) x every single-leaf alteration of the non-revocation part (C_r, C_u, each response, every 8th byte of the signed accumulator, key counter, responses deleted/added), every transplant (whole part / signed accumulator / single responses) from another credential of the same key, from the same credential at an older accumulator, from a credential under another key; the proof's own accumulator relabelled (later index / time) and signed with another key; every rejected object verified again; the disclosure part of a revoked credential joined under one challenge with the non-revocation part of another credential; proofs from a revoked or foreign witness (guard bypassed by building the commitment from a doctored witness); non-trivial = distinct (key, alteration); oracle: rejected (16 verifications: never accepted)"
 	for _, keyName := range vkit.Pick([]string{"toyB"}, []string{"toyB", "k1024a"}) {
 		k := vfK(keyName)
 		env := vfInstallEnv(t, "C11/adv/"+keyName, r.Seed)
@@ -371,6 +371,64 @@ func TestVerifC11Adversarial(t *testing.T) {
 			}
 			if n := c11VerifyMany(k.Pk, p, 16); n > 0 {
 				r.Violate("C11|invalid-witness-proof-accepted|"+variant, fmt.Sprintf("%s accepted %d/16", variant, n), variant)
+			}
+		}
+		// joint forgery with a friend's witness: the holder of a revoked credential A builds the disclosure
+		// part from A and the non-revocation part from a friend's valid credential B under ONE challenge,
+		// gives A's revocation attribute the randomiser of B's non-revocation proof and leaves B's own
+		// response for the witness value ("alpha") in the proof
+		if _, mine := r.Next(); mine {
+			w3 := c11NewWorld(k)
+			cA := w3.issue(vfTag("advJA"), []*big.Int{vfTag("ja1"), vfTag("ja2")}, 2)
+			cB := w3.issue(vfTag("advJB"), []*big.Int{vfTag("jb1"), vfTag("jb2")}, 3)
+			w3.revoke(cA.NonRevocationWitness.E)
+			if err := cB.NonRevocationWitness.Update(k.Pk, w3.update(1)); err != nil {
+				r.HarnessError("friend's witness update: %v", err)
+				return
+			}
+			for _, keepAlpha := range []bool{true, false} {
+				r.Eval()
+				desc := fmt.Sprintf("disclosure part from revoked credential A + non-revocation part from credential B under one challenge (B's alpha kept: %v)", keepAlpha)
+				r.Nontrivial(keyName + "|" + desc)
+				var forged *ProofD
+				pan, msg := vkit.Guard(func() {
+					revIdx := len(cA.Attributes) - 1
+					bA, err := cA.CreateDisclosureProofBuilder([]int{1}, nil, false)
+					if err != nil {
+						panic(err)
+					}
+					nb, err := cB.NonrevBuildProofBuilder()
+					if err != nil {
+						panic(err)
+					}
+					bA.attrRandomizers[revIdx] = nb.randomizer
+					rnd, _ := NewProofRandomizers()
+					l1, err := bA.Commit(rnd)
+					if err != nil {
+						panic(err)
+					}
+					l2, err := nb.Commit()
+					if err != nil {
+						panic(err)
+					}
+					c := createChallenge(vfContext, vfNonce, append(l1, l2...), false)
+					forged = bA.CreateProof(c).(*ProofD)
+					forged.NonRevocationProof = nb.CreateProof(c)
+					if !keepAlpha {
+						delete(forged.NonRevocationProof.Responses, "alpha")
+					}
+				})
+				if pan || forged == nil {
+					r.Count("joint forgery not constructible: "+msg, 1)
+					continue
+				}
+				n := c11VerifyMany(k.Pk, forged, 16)
+				var direct bool
+				vkit.Guard(func() { direct = forged.Verify(k.Pk, vfContext, vfNonce, false) })
+				r.Outcome(fmt.Sprintf("joint-forgery:alpha-kept=%v:accepted=%d/16:direct=%v", keepAlpha, n, direct))
+				if n > 0 || direct {
+					r.Violate("C11|revoked-credential-accepted-with-a-friends-witness", fmt.Sprintf("%s: accepted %d/16 (Go object directly: %v)", desc, n, direct), map[string]any{"key": keyName, "forgery": desc})
+				}
 			}
 		}
 		// forgery with degenerate group elements: a holder WITHOUT a valid witness (revoked, or never
